@@ -19,19 +19,19 @@ CHECKS = {
             "for each sampled stored document every single truncation, token loss and token duplication (capped per document) plus sampled stray tokens, garbage and 2-3 compounded damages, optionally after successful edits and wrapped in whitespace; pass-through, Fail/1 verdict and refusal of a battery of edits through library and CLI",
             "fault injection on the stored text between save and load: exhaustive single-fault enumeration per sampled document plus seeded multi-fault sequences"),
     "C08": ("session", "exploration", "3.C08",
-            "failing operations (all rejection classes) interleaved with succeeding ones on one live object; exception class, unchanged rebuild after each failure, and an as-if-never-happened twin history",
+            "failing operations (all rejection classes) interleaved with succeeding ones on one live object, through the CLI helpers, the mapping API and the scope mapping; exception class, unchanged rebuild after each failure, and an as-if-never-happened twin history that answers every later operation",
             "deterministic simulation: seeded histories interleaving failing and succeeding operations; twin-history comparison"),
     "C09": ("session", "exploration", "3.C09",
             "scoped set/rm histories over 0-3 let layers x wrapper shapes x selector depths with names present in several layers; decoded let chain vs reference model, body and non-addressed layers byte-identical",
             "deterministic simulation: seeded scoped-edit histories against a reference model of the let layers"),
     "C14": ("mapping", "exploration", "3.C14",
-            "histories of item get/set/del on the document, nested sets and the scope mapping with restarts; plain-dict model vs API answers vs tree decoded from rebuild()",
+            "histories of item get/set/del on the document, nested sets and the scope mapping with restarts (bare names; a second workload keyed by the spelling of quoted names); plain-dict model vs API answers vs tree decoded from rebuild()",
             "deterministic simulation: seeded mapping-operation histories against a dictionary reference model and the decoded text"),
     "C15": ("threads", "exploration", "3.C15",
             "seeded pre-emption schedules of 2-4 caller threads (baton scheduler on sys.settrace line events, scheduled gc), deep structural snapshots around every rebuild, order permutations in one process, and a PYTHONHASHSEED x cwd matrix of fresh interpreters",
             "deterministic simulation: seeded baton scheduler over real threads (one runnable at a time) with scheduled GC; serial execution as oracle; configuration matrix"),
     "C16": ("cli", "exploration", "3.C16",
-            "in-process CLI main() under simulated stdin (chunked down to 1 byte), -f FILE, input faults (missing/dir/undecodable/closed) and stdout faults (EPIPE/ENOSPC at a chosen byte); library result as oracle; pipeline step; sample cross-checked against real subprocesses",
+            "in-process CLI main() under simulated stdin (chunked down to 1 byte), -f FILE, input faults (missing/dir/undecodable/closed), stdout faults (EPIPE/ENOSPC/EFBIG at a chosen byte, short writes, a stdout that takes a few bytes per call) and a stack limit on deeply nested documents; library result as oracle; pipeline step; sample cross-checked against real subprocesses",
             "deterministic simulation of the process boundary: simulated streams with chunking and I/O fault injection, library as reference"),
     "C17": ("fs", "exploration", "3.C17",
             "real directory trees with same-named files and planted values, import chains of 1-4 hops, entry spellings, chdir / removed-cwd events scheduled between calls, missing/dir/unreadable/non-path/angle faults; purely lexical expectation",
@@ -40,7 +40,7 @@ CHECKS = {
             "law instances (idempotence, set-then-rm, rm-then-set, commutation) as alternative histories on live and restarted objects; outputs compared with each other",
             "deterministic simulation: alternative operation orders and restart points compared pairwise"),
     "C10": ("registry", "exploration", "3.C10",
-            "document-lifetime histories (create / traverse / resolve / edit / discard / gc.collect in seeded order over several live documents) on generated scoping programs; independent lexical-scoping resolver as oracle; step budget for unbound/cyclic names",
+            "document-lifetime histories (create / traverse / resolve / edit / rename / move between documents / discard / gc.collect in seeded order over several live documents) on generated scoping programs; independent lexical-scoping resolver as oracle; step budget for unbound/cyclic names",
             "deterministic simulation: seeded document-lifetime histories with scheduled garbage collection against an independent reference resolver"),
     "C11": ("session", "exploration", "3.C11",
             "edit histories on documents whose binding values are references (let layers, rec sets, inherit, chains, shadowing); the reference resolver names the one binding whose value extent may change",
